@@ -296,3 +296,32 @@ func forcedUnstakeLeavesQueue(r *Run, rule string) {
 func init() {
 	extend("C06", func(r *Run) { forcedUnstakeLeavesQueue(r, "C06-R17") })
 }
+
+// jailedCannotBeginUnstaking: the jailed flag cannot be shed (C09). Found by a seeding sub-agent's remark, reproduced
+// (repro/C09_tombstone_shed_by_unstaking_test.go.txt), repaired by the commit recorded in known_findings.json.
+func jailedCannotBeginUnstaking(r *Run, rule string) {
+	P := r.P
+	r.Rule(rule, "a jailed validator cannot shed its record: ValidateValidatorBeginUnstaking succeeds only under !validator.IsJailed() (the record, and with it the jailed flag of a tombstoned validator, is deleted when an unstaking matures), and handleMsgBeginUnstake begins the unstaking only after that validation", 2)
+	f := r.fn(posK + "ValidateValidatorBeginUnstaking")
+	if f != nil {
+		n := 0
+		for i, ret := range P.successReturns(f, 0, "nil") {
+			n++
+			r.requireCut(rule, fmt.Sprintf("ValidateValidatorBeginUnstaking/success#%d", i), nil, ret, "not-jailed", `^!\(x/pos/types\.Validator\)\.IsJailed\(param:validator\)$`, `^!param:validator\.Jailed$`)
+		}
+		if n == 0 {
+			r.Viol(rule, "ValidateValidatorBeginUnstaking/success", P.Pos(f.Pos()), "no success return")
+		}
+	}
+	if h := r.fn("x/pos.handleMsgBeginUnstake"); h != nil {
+		for _, c := range CallsIn(h, posK+"BeginUnstakingValidator") {
+			ok, _ := HasAtom(P.LocalGuards(c), `^isnil\(\(x/pos/keeper\.Keeper\)\.ValidateValidatorBeginUnstaking\(`)
+			r.Check(ok, rule, "handleMsgBeginUnstake/validated-first", P.InstrPos(c), "after validation", "BeginUnstakingValidator is reached without a successful ValidateValidatorBeginUnstaking")
+		}
+	}
+}
+
+func init() {
+	extend("C09", func(r *Run) { jailedCannotBeginUnstaking(r, "C09-R11") })
+	extend("C06", func(r *Run) { jailedCannotBeginUnstaking(r, "C06-R18") })
+}
